@@ -33,6 +33,7 @@ used is the check of the generated code itself.
 -/
 import SteelVerif.C09.CoreLoop
 import SteelVerif.C09.CoreWFStep
+import SteelVerif.C09.CoreSrc2
 namespace SteelVerif.C09C
 open SteelVerif.C01C
 
@@ -610,5 +611,101 @@ example : ∃ c, Reach (progCodes [loopDef, .callG 12 [.const (.int 1000000), .c
     c.frames.length = 1 := by
   have h1 : run 20 (initCfg (compileTop loopDef) (toSt ⟨[], primGlobals⟩)) = .ok (.void, stLoop) := rfl
   exact ⟨_, .later h1 (.here (n := 3) rfl), rfl⟩
+
+/-! ## The SOURCE-level theorem
+
+`T.TailOnlySrc ps e` (file `CoreSrc.lean`) is a syntactic, decidable predicate on `Core`: inside every lambda body, to any
+nesting, every application is in tail position or applies a primitive slot; no primitive slot is defined or assigned;
+operand counts of tail calls and of top-level calls are at most `ps.maxN`; every lambda body and the form itself fit in
+`ps.maxLen` instructions.  The bytecode rules used here are the boundary-based ones of `CoreWF2.lean` (`T.GoodCode`,
+`T.Inv`): the first version of the checker (`tailOnlyB`) tests its jump rule also on the instructions of nested lambda
+bodies where they sit inside the enclosing code and can therefore REJECT a correct program with nested lambdas (example
+below) — it is sound, not complete; the boundary-based rules have no such false rejections for generated code. -/
+
+/-- **Generated code of a tail-only source form satisfies the bytecode rules** (for every form, by induction over
+`Core` following `compile`: `CoreSrc2.lean`). -/
+theorem tailOnlySrc_compiles_tailOnly (ps : Params) (e : Core) (h : T.TailOnlySrc ps e = true) :
+    T.GoodCode ps true (compileTop e) := T.goodCode_top ps e h
+
+theorem T.inv_steps {ps : Params} : ∀ (n : Nat) (c c' : Cfg), T.Inv ps c → steps n c = some c' → T.Inv ps c' := by
+  intro n
+  induction n with
+  | zero => intro c c' h hs; simp [steps] at hs; subst hs; exact h
+  | succ n ih =>
+    intro c c' h hs
+    simp only [steps] at hs
+    cases hst : step c with
+    | next c2 => rw [hst] at hs; exact ih c2 c' (T.inv_step h hst) hs
+    | halt v st => rw [hst] at hs; cases hs
+    | err e => rw [hst] at hs; cases hs
+
+theorem T.run_ok_stOk {ps : Params} : ∀ (n : Nat) (c : Cfg) (v : VVal) (st : St (List Instr)), T.Inv ps c →
+    run n c = .ok (v, st) → T.StOk ps st := by
+  intro n
+  induction n with
+  | zero => intro c v st _ h; simp [run] at h
+  | succ n ih =>
+    intro c v st hinv h
+    simp only [run] at h
+    cases hs : step c with
+    | next c2 => rw [hs] at h; exact ih c2 v st (T.inv_step hinv hs) h
+    | halt v2 st2 =>
+      rw [hs] at h
+      simp only [Res.ok.injEq, Prod.mk.injEq] at h
+      obtain ⟨_, rfl⟩ := h
+      rw [step_halt_st hs]; exact hinv.st
+    | err e => rw [hs] at h; cases h
+
+/-- **Tail-only SOURCE programs run in constant frame depth.**  If every top-level form of the core program `es`
+satisfies the syntactic predicate `TailOnlySrc`, then every configuration reachable in the run of the compiled program
+(any number of steps of any form, terminating or not) has at most one frame. -/
+theorem core_loop_constant_space_src (ps : Params) : ∀ (es : List Core) (st : St (List Instr)),
+    (∀ e, e ∈ es → T.TailOnlySrc ps e = true) → T.StOk ps st →
+    ∀ c, Reach (es.map compileTop) st c → c.frames.length ≤ 1 ∧ T.Inv ps c := by
+  intro es
+  induction es with
+  | nil => intro st _ _ c hr; cases hr
+  | cons e rest ih =>
+    intro st hok hst c hr
+    have hinit : T.Inv ps (initCfg (compileTop e) st) :=
+      ⟨T.GoodL.nil ps, hst, T.goodCode_top ps e (hok e (by simp)), T.Ok.zero _⟩
+    simp only [List.map_cons] at hr
+    cases hr with
+    | here hs => have := T.inv_steps _ _ _ hinit hs; exact ⟨this.len, this⟩
+    | later hrun hrest =>
+      exact ih _ (fun e' he' => hok e' (List.mem_cons_of_mem _ he')) (T.run_ok_stOk _ _ _ _ hinit hrun) c hrest
+
+theorem T.stOk_prims : T.StOk primSlots (toSt ⟨[], primGlobals⟩) := by
+  refine ⟨by simp [toSt]; exact T.GoodL.nil _, ?_, ?_⟩
+  · intro g v hm
+    simp [toSt, primGlobals] at hm
+    rcases hm with ⟨_, rfl⟩ | ⟨_, rfl⟩ | ⟨_, rfl⟩ | ⟨_, rfl⟩ | ⟨_, rfl⟩ | ⟨_, rfl⟩ <;> exact .prim _
+  · intro g hg
+    simp [primSlots] at hg
+    rcases hg with rfl | rfl | rfl | rfl | rfl | rfl <;> simp [toSt, primGlobals, lookupG]
+
+-- non-vacuity: the source predicate holds of the mutual recursion, of the callee in a captured variable, …
+example : [m1, m2, m3, .callG 30 [.const (.int 100)]].all (T.TailOnlySrc primSlots) = true := by decide
+example : [capDef, lpDef, .callG 22 [.const (.int 8)]].all (T.TailOnlySrc primSlots) = true := by decide
+example : [spinDef, vloopDef, loopDef, mkE, kE, callK, sharedE, setIt, getIt].all (T.TailOnlySrc primSlots) = true := by
+  decide
+-- … not of non-tail recursion, nor of a callee that is the result of a non-tail closure call
+example : T.TailOnlySrc primSlots deepnDef = false := by decide
+example : T.TailOnlySrc primSlots rloopDef = false := by decide
+-- an instance, from the primitives only: every configuration of the mutual recursion / of the captured-variable loop
+example (c : Cfg) (hr : Reach ([m1, m2, m3, .callG 30 [.const (.int 100)]].map compileTop) (toSt ⟨[], primGlobals⟩) c) :
+    c.frames.length ≤ 1 :=
+  (core_loop_constant_space_src primSlots _ _ (by decide) T.stOk_prims c hr).1
+example (c : Cfg) (hr : Reach ([capDef, lpDef, .callG 22 [.const (.int 8)]].map compileTop) (toSt ⟨[], primGlobals⟩) c) :
+    c.frames.length ≤ 1 :=
+  (core_loop_constant_space_src primSlots _ _ (by decide) T.stOk_prims c hr).1
+
+/-- A correct program the FIRST checker rejects and the source predicate (hence the boundary-based rules) accepts: the
+inner lambda's `IF 4` sits inside the outer body, whose own instruction 4 is the `FUNC` word of `(+ n (+ 1 2))`. -/
+def nestedJump : Core := .define 40 (.lam 1 false []
+  (.seq (.callG 0 [.loc 0 false, .callG 0 [.const (.int 1), .const (.int 2)]])
+    (.lam 1 false [] (.ite (.loc 0 false) (.const (.int 1)) (.const (.int 2))))))
+example : tailOnlyB 3 primSlots [compileTop nestedJump] = false := by decide
+example : T.TailOnlySrc primSlots nestedJump = true := by decide
 
 end SteelVerif.C09C
